@@ -40,6 +40,14 @@ CHECKS = {
         note="Dispatch through the in-process transport (URI construction, handler lookup, status encoding are production code).",
         design="DESIGN.md section 3, C13",
     ),
+    "C14": dict(
+        category="fault_enumeration",
+        engine="E3 (turmoil, separate binary vsim)",
+        technique="exhaustive enumeration of fault scripts (hold/release/partition/repair at 16 decision instants, <=1 event quick / <=2 thorough) over the real hyper/h2 client and server on turmoil's simulated network with fixed latency and seeded RNG; every run repeated for reproducibility; workers in child processes",
+        text="Workloads: three sequential requests; two concurrent first requests on a fresh channel; three concurrent requests on a warmed-up connection; one 1 MiB request (multi-chunk bodies). Handler delays 0 / 0.5 s / 3 s, client timeout 2 s or none. For every script and combination each request must return Ok(id*10) for its own id with its payload echo intact, or a ConnectionError/Timeout status, nothing else and no panic; the handler runs at most once per id; with a timeout configured the call returns within 2 s (+5 ms) of simulated time. A simulation that aborts the process is isolated in a child process and reported as a violation.",
+        note="turmoil 0.4 model: hold delays, partition drops without retransmission. A request without client timeout that never completes is an allowed outcome.",
+        design="DESIGN.md section 3, C14",
+    ),
     "C15": dict(
         category="model_checking",
         engine="E1 + H4",
@@ -169,7 +177,9 @@ manifest = {
     "engines": [
         {"name": "vkit", "path": "harness/vkit", "serves_properties": ALL,
          "kind_free_text": "hand-rolled engines: explicit-state BFS/DFS with replay, await-point schedule explorer for tokio tasks, input enumerators, evidence + known-findings plumbing"},
-        {"name": "vcheck", "path": "harness/vcheck", "serves_properties": sorted(CHECKS),
+        {"name": "vsim", "path": "harness/vsim", "serves_properties": ["C14"],
+         "kind_free_text": "turmoil-based fault-script enumerator over the real HTTP/2 stack (datacake-rpc feature `simulation`)"},
+        {"name": "vcheck", "path": "harness/vcheck", "serves_properties": sorted(c for c in CHECKS if c != "C14"),
          "kind_free_text": "one module per property driving the real datacake code"},
     ],
     "checks": [],
